@@ -29,8 +29,8 @@ CLAIMS = {
         '6/C08',
     ),
     'C09': (
-        'Lean 4 theorem Pta.C09.quotient: for every well-formed architecture and every limit the graph built with level_limit has exactly the truncated names as nodes and an import a->b iff some module truncating to a imports one truncating to b and a != b (plus nodes_nodup, no_self_import, limit_shift, graph_of_arch). Verdict preservation above the limit is a correspondence-level check (two real scans / two real graph builds vs the model) on strict rules.',
-        "Partial: the 'consequently same verdict' sentence is checked by correspondence and by the model, not yet as a Lean theorem; it is false for related identifiers for any implementation satisfying the quotient law (DESIGN 6/C09). Trusted: Lean kernel, harness/driver.",
+        "Lean 4 theorems: Pta.C09.quotient (for every well-formed architecture and every limit the graph built with level_limit has exactly the truncated names as nodes and an import a->b iff some module truncating to a imports one truncating to b and a != b), graph_of_quotient_arch / quotient_arch_wf (the flattened graph is the graph of the well-formed quotient architecture), and verdict_preserved / spec_verdict_preserved / verdict_lim_spec: every strict rule whose named modules lie at or above level k (sub-module parents strictly above) has the same verdict on the flattened and the full graph, all shapes and batch sizes; verdict_not_preserved_related documents by a decide-checked witness why strictness is needed. Tie: two real scans / two real graph builds vs the model, module and import sets and verdicts.",
+        "Verdict preservation is stated on strict rules (pairwise unrelated identifiers): for related identifiers it is false for any implementation satisfying the quotient law (witness theorem). Trusted: Lean kernel, harness/driver.",
         TECH,
         '6/C09',
     ),
